@@ -193,6 +193,8 @@ type c02Site struct {
 	Call    string // expression over loop variables x, y producing the value handed to em
 	Expect  []string
 	ByIndex bool     // the loop variables are indexes into the value tables
+	RefOnly bool     // no native oracle: the reference is the compiled program (always built)
+	ArgType string   // result type for the call-argument context when it is not the operand kind
 	Seq     bool     // all evaluations run inside ONE activation of a function looping over the parallel tables Xs / Ys
 	KExpr   string   // constant-rounding sites: the Go constant expression converted to the typed destination
 	KVal    *big.Rat // its exact value
@@ -995,6 +997,7 @@ func (g *c02Gen) enumerate() {
 	}
 	g.seqUnary(c02BoolKind, c02BoolValues(), 2000)
 	g.logicSites()
+	g.compSites()
 	g.constSites()
 }
 
@@ -1119,6 +1122,9 @@ func c02Render(name string, sites []*c02Site) *c02Prog {
 			}
 			if s.Cat == "conv" {
 				R = s.K2.Name
+			}
+			if s.ArgType != "" {
+				R = s.ArgType
 			}
 			if !ids[R] {
 				ids[R] = true
@@ -1569,7 +1575,7 @@ func runC02(args []string) error {
 	for i, p := range progs {
 		hasConst := false
 		for _, s := range p.Sites {
-			hasConst = hasConst || s.Cat == "kconst"
+			hasConst = hasConst || s.Cat == "kconst" || s.RefOnly
 		}
 		if *tier == "thorough" || i%8 == int(*seed%8) || hasConst {
 			refProgs = append(refProgs, goProg{Name: p.Name, Files: map[string]string{"main.go": p.Src}})
@@ -1728,7 +1734,12 @@ func runC02(args []string) error {
 					}
 					distinct.add(fmt.Sprint(s.ID), x.key(), ys)
 				}
-				if hasRef {
+				if s.RefOnly {
+					if !hasRef {
+						return fmt.Errorf("site %d has no compiled-Go reference (generator defect)", s.ID)
+					}
+					exp = c02CanonTok(rt[i])
+				} else if hasRef {
 					if r := c02CanonTok(rt[i]); r != exp {
 						oracleBad++
 						if oracleNote == "" {
